@@ -27,7 +27,7 @@ type line struct {
 func (l line) coq() string {
 	strs := make([]string, len(l.Strs))
 	for i, s := range l.Strs {
-		strs[i] = vh.BytesTerm(s)
+		strs[i] = bt(s)
 	}
 	return fmt.Sprintf("(%d, [%s], %s)", l.Tag, strings.Join(strs, ";"), vh.NList(l.Nums))
 }
@@ -159,6 +159,13 @@ func msgLines(prefix string, file int, m *descriptorpb.DescriptorProto) []line {
 	for _, n := range m.NestedType {
 		out = append(out, msgLines(full, file, n)...)
 	}
+	// enums nested in the message (inline `enum { ... }` fields), after its nested messages
+	for _, e := range m.EnumType {
+		out = append(out, line{Tag: 4, Strs: []string{full + "." + e.GetName()}, Nums: []uint64{}})
+		for _, v := range e.Value {
+			out = append(out, line{Tag: 5, Strs: []string{v.GetName()}, Nums: []uint64{uint64(v.GetNumber())}})
+		}
+	}
 	return out
 }
 
@@ -196,12 +203,13 @@ func svcLines(pkgName string, file int, s *descriptorpb.ServiceDescriptorProto) 
 	}
 	out := []line{l}
 	for _, m := range s.Method {
-		verb, path, sq := uint64(0), "", uint64(0)
+		verb, path, sq, body := uint64(0), "", uint64(0), ""
 		var mopts proto.Message
 		if m.Options != nil {
 			mopts = m.Options
 		}
 		if hr, ok := getExt[*annotations.HttpRule](mopts, annotations.E_Http); ok && hr != nil {
+			body = hr.GetBody()
 			switch p := hr.Pattern.(type) {
 			case *annotations.HttpRule_Get:
 				verb, path = 1, p.Get
@@ -228,7 +236,7 @@ func svcLines(pkgName string, file int, s *descriptorpb.ServiceDescriptorProto) 
 			}
 		}
 		out = append(out, line{Tag: 7,
-			Strs: []string{m.GetName(), strings.TrimPrefix(m.GetInputType(), "."), strings.TrimPrefix(m.GetOutputType(), "."), path},
+			Strs: []string{m.GetName(), strings.TrimPrefix(m.GetInputType(), "."), strings.TrimPrefix(m.GetOutputType(), "."), path, body},
 			Nums: []uint64{verb, sq}})
 	}
 	return out
